@@ -1252,7 +1252,83 @@ func (pr *Program) exportUnconditional(m, modPath string, export *FuncInfo) []*O
 	if len(bad) > 0 {
 		src = "ExportGenesis may skip records: " + strings.Join(bad, "; ")
 	}
-	return []*Obligation{staticObl("x/"+m+"/export-unconditional", "C20", "frame", len(bad) == 0, "x/"+m, src)}
+	out := []*Obligation{staticObl("x/"+m+"/export-unconditional", "C20", "frame", len(bad) == 0, "x/"+m, src)}
+	// the list getters ExportGenesis calls: their iterator loops must collect every record (no continue/break, no
+	// data-dependent test inside the loop)
+	var badG []string
+	var getters []string
+	seenG := map[*FuncInfo]bool{}
+	for fi := range seen {
+		info := fi.Pkg.P.TypesInfo
+		ast.Inspect(fi.Decl.Body, func(n ast.Node) bool {
+			call, ok := n.(*ast.CallExpr)
+			if !ok {
+				return true
+			}
+			var obj types.Object
+			switch f := unparen(call.Fun).(type) {
+			case *ast.Ident:
+				obj = info.Uses[f]
+			case *ast.SelectorExpr:
+				if sel := info.Selections[f]; sel != nil {
+					obj = sel.Obj()
+				} else {
+					obj = info.Uses[f.Sel]
+				}
+			}
+			fn, ok := obj.(*types.Func)
+			if !ok {
+				return true
+			}
+			g := pr.Funcs[fn]
+			if g == nil || seenG[g] || seen[g] || g.Decl == nil || g.Decl.Body == nil || !strings.HasPrefix(g.Pkg.Path, modPath) {
+				return true
+			}
+			seenG[g] = true
+			loops := 0
+			ast.Inspect(g.Decl.Body, func(n ast.Node) bool {
+				switch v := n.(type) {
+				case *ast.FuncLit:
+					return false
+				case *ast.ForStmt, *ast.RangeStmt:
+					loops++
+					var body *ast.BlockStmt
+					if f, ok := v.(*ast.ForStmt); ok {
+						body = f.Body
+					} else {
+						body = v.(*ast.RangeStmt).Body
+					}
+					ast.Inspect(body, func(n ast.Node) bool {
+						switch w := n.(type) {
+						case *ast.FuncLit:
+							return false
+						case *ast.BranchStmt:
+							badG = append(badG, fmt.Sprintf("%s: %s at %s", g.Obj.Name(), w.Tok, pr.Pos(w.Pos())))
+						case *ast.IfStmt:
+							badG = append(badG, fmt.Sprintf("%s: test inside the collecting loop at %s", g.Obj.Name(), pr.Pos(w.Pos())))
+						case *ast.ReturnStmt:
+							badG = append(badG, fmt.Sprintf("%s: return inside the collecting loop at %s", g.Obj.Name(), pr.Pos(w.Pos())))
+						}
+						return true
+					})
+					return false
+				}
+				return true
+			})
+			if loops > 0 {
+				getters = append(getters, g.Obj.Name())
+			}
+			return true
+		})
+	}
+	sort.Strings(badG)
+	sort.Strings(getters)
+	srcG := "the list getters called by ExportGenesis collect every record they iterate over: " + strings.Join(getters, ", ")
+	if len(badG) > 0 {
+		srcG = "a list getter called by ExportGenesis may skip records: " + strings.Join(badG, "; ")
+	}
+	out = append(out, staticObl("x/"+m+"/export-getters-unconditional", "C20", "frame", len(badG) == 0, "x/"+m, srcG))
+	return out
 }
 
 
